@@ -132,6 +132,15 @@ def coq_case(case, out):
     """bool: the model run on the same sessions and faults yields exactly the implementation's observation."""
     start = START[case.get('start', 'pooled')]
     faults = sorted(set(case.get('faults', [])) | set(out.get('real_failures', [])))      # injected + the driver's own failures
+    if case.get('disconnect_after_first'):
+        # first session; Database.disconnect(); the remaining sessions
+        ses = [[case['shape'], case['ops']]] + list(case.get('more', []))
+        outs = [x['outcomes'] for x in out['sessions']]
+        first = '[(%s, %s)]' % (SHAPES[ses[0][0]], coq_body(ses[0][1], outs[0]))
+        rest = '[' + '; '.join('(%s, %s)' % (SHAPES[sh], coq_body(ops, oc)) for (sh, ops), oc in zip(ses[1:], outs[1:])) + ']'
+        o = 'faults_oracle %s' % coq_faults(faults)
+        return 'obs_eqb (observe (run_sessions (%s) %s (snd (db_disconnect (%s) (snd (run_sessions (%s) %s %s)))))) (%s)' % (
+            o, rest, o, o, first, start, coq_observation(out))
     return 'obs_eqb (observe (run_sessions (faults_oracle %s) %s %s)) (%s)' % (
         coq_faults(faults), coq_sessions(case, out), start, coq_observation(out))
 
@@ -198,6 +207,12 @@ def session_anomalies(case, out):
                         'session %d met no failing DB-API call and its body does not raise, yet it ends with %s (%s; failures of earlier sessions: [%s] = %s)' % (si, x['exc'], tag, faults, where)))
             break
         lo = hi
+    if out.get('ext_writer') is not None:
+        ew = out['ext_writer']
+        if not ew.get('committed') or ew.get('status') != 0 or not any(r[1] == 777 for r in out.get('rows_after', [])):
+            res.append(('other-process-commit-lost:%s' % where, 'the write committed by another process while the session was failing is not in the file (%s, %r)' % (tag, ew)))
+    if out.get('disconnect') not in (None, 'ok') and not [k for k in allf if k >= out['sessions'][0]['calls'] and k < out.get('disconnect_calls', 0)]:
+        res.append(('disconnect-fails:%s' % out['disconnect'], 'Database.disconnect() between two sessions raised %s although none of its calls failed (%s)' % (out['disconnect'], tag)))
     for ev in out.get('lock_events', []):
         res.append(('provider-lock-%s:%s' % (ev[0], where), 'the provider lock was released %s (%s, faults [%s] = %s)' %
                     ('while it was not held (released twice)' if ev[0] == 'release-of-unlocked-lock' else 'by a thread that does not hold it (lock of %s taken away)' % (ev[2] if len(ev) > 2 else '?'), tag, faults, where)))
@@ -315,6 +330,16 @@ READER_CASES = [
     {'shape': 'opt', 'start': 'pooled', 'ops': [['new', False, 1], ['rawwrite', False, 2]], 'reader': 'first', 'more': [['opt', [['new', False, 3]]], ['ser', [['forupd', False, 1]]]], 'name': 'commit-locked/opt'},
     {'shape': 'opt', 'start': 'fresh', 'ops': [['new', False, 1], ['commit', True, 0], ['select', False, 0], ['new', False, 2], ['commit', True, 0]], 'reader': 'all', 'name': 'commit-locked/caught'},
     {'shape': 'ddl', 'start': 'none', 'ops': [['ddlwrite', False, 1]], 'reader': 'first', 'more': [['imm', [['rawwrite', False, 2]]]], 'name': 'commit-locked/ddl'},
+    # ANOTHER PROCESS holds BEGIN IMMEDIATE during the first session: Pony's own BEGIN IMMEDIATE fails ('database is locked' after the busy timeout);
+    # after the other process has committed, the next session works and both writes are in the file
+    {'shape': 'opt', 'start': 'none', 'ops': [['select', False, 0], ['new', False, 1], ['rawwrite', True, 2], ['select', False, 0]], 'ext_writer': 'first',
+     'more': [['imm', [['rawwrite', False, 3]]]], 'name': 'other-process-writes/opt'},
+    {'shape': 'ser', 'start': 'pooled', 'ops': [['select', False, 0]], 'ext_writer': 'first', 'more': [['opt', [['new', False, 4]]]], 'name': 'other-process-writes/ser'},
+    {'shape': 'imm', 'start': 'fresh', 'ops': [['forupd', False, 1]], 'ext_writer': 'first', 'more': [['imm', [['forupd', False, 1], ['rawupdate', False, 1]]]], 'name': 'other-process-writes/imm'},
+    # Database.disconnect() between two sessions
+    {'shape': 'opt', 'start': 'pooled', 'ops': [['new', False, 1]], 'disconnect_after_first': True, 'more': [['imm', [['rawwrite', False, 2]]]], 'name': 'disconnect/opt'},
+    {'shape': 'ddl', 'start': 'none', 'ops': [['ddlwrite', False, 1]], 'disconnect_after_first': True, 'more': [['opt', [['select', False, 0]]]], 'name': 'disconnect/ddl'},
+    {'shape': 'imm', 'start': 'fresh', 'ops': [['rawwrite', False, 1], ['raise', False, 0]], 'disconnect_after_first': True, 'more': [['ser', [['select', False, 0]]]], 'name': 'disconnect/imm'},
 ]
 
 
